@@ -43,6 +43,13 @@ def mk_table(kind, name):
         return reg["Table"](name, alias=name + "_a")
     if kind == "schema":
         return reg["Table"](name, schema="sc")
+    # two tables that compare equal (name, schema, alias) but are different row sources: a temporal table and its plain namesake
+    if kind == "temporal-same":
+        return reg["Table"]("same").for_(reg["SystemTimeValue"]() == "2020-01-01")
+    if kind == "plain-same":
+        return reg["Table"]("same")
+    if kind == "temporal-same-2":
+        return reg["Table"]("same").for_(reg["SystemTimeValue"]() == "1999-09-09")
     raise ValueError(kind)
 
 
@@ -100,11 +107,12 @@ def cases(tier, seed, shard, nshards):
                        "islot": (ei + ii) % max(1, inner["arity"])}
     for d in ("Query", "MySQLQuery", "PostgreSQLQuery", "SQLLiteQuery", "MSSQLQuery", "OracleQuery"):
         for name in STATEMENTS:
-            for pair in PAIRS[:6]:
+            for pair in PAIRS[:6] + [("temporal-same", "plain-same"), ("plain-same", "temporal-same"), ("temporal-same", "temporal-same-2")]:
                 k += 1
                 if k % nshards == shard:
                     yield {"k": "stmt", "d": d, "s": name, "pair": list(pair)}
-                    yield {"k": "stmt", "d": d, "s": name, "pair": list(pair), "twin": True}
+                    if not pair[0].endswith("same"):
+                        yield {"k": "stmt", "d": d, "s": name, "pair": list(pair), "twin": True}
     n = (16000 if tier == "quick" else 300000) // nshards
     for _ in range(n):
         yield {"k": "random", "seed": rnd.getrandbits(40), "pair": list(rnd.choice(PAIRS[:6]))}
@@ -417,6 +425,14 @@ def run_stmt(case, mon):
                 o2 = o if k_ < 2 or not hasattr(o, "limit") else o.limit(3)
                 s_ = o2.get_sql(contexts()[case["d"]])
                 out.append(s_ if k_ < 2 else s_.replace(" LIMIT 3", "").replace(" FETCH NEXT 3 ROWS ONLY", ""))
+            except Exception as e:
+                out.append("<exc:%s>" % type(e).__name__)
+        # ... and continued with further select() calls naming the new and the old table (the bookkeeping behind star selection
+        # and de-duplication belongs to the result as well)
+        for tbl_ in (t_new, t_old):
+            try:
+                o3 = o.select(fld(tbl_, "zz9"), fld(tbl_, "a")) if isinstance(o, reg["QueryBuilder"]) and tbl_ is not None else None
+                out.append(o3.get_sql(contexts()[case["d"]]) if o3 is not None else "-")
             except Exception as e:
                 out.append("<exc:%s>" % type(e).__name__)
         return out
